@@ -148,10 +148,11 @@ Fixpoint read_slice (limit : nat) (bs : bytes) : option (bytes * bytes) :=
 Definition buffer_size : nat := Z.to_nat nsqd_defaultBufferSize.
 
 (* bytes.Split(line, " ") : always at least one element *)
+(* [cur] accumulates the current piece backwards; rev_append cur [] = rev cur, in linear time *)
 Fixpoint split_sp (cur : bytes) (l : bytes) : list bytes :=
   match l with
-  | [] => [rev cur]
-  | c :: r => if (c =? SP)%N then rev cur :: split_sp [] r else split_sp (c :: cur) r
+  | [] => [rev_append cur []]
+  | c :: r => if (c =? SP)%N then rev_append cur [] :: split_sp [] r else split_sp (c :: cur) r
   end.
 
 Definition be32 (a b c d : N) : Z := Z.of_N (((a * 256 + b) * 256 + c) * 256 + d).
@@ -681,6 +682,48 @@ Definition handle_conn (cf : cfg) (orc : oracle) (json : bytes -> jres) (bs : by
     if bytes_eqb m magic_v2 then exec_conn cf orc json rest
     else [Err E_BAD_PROTOCOL; Close]
   end.
+
+(* ------------------------------------------------------------------ two connections *)
+(* one iteration of a connection's IOLoop: what it writes / hands to the core, and where
+   it continues (None: the loop has ended) *)
+Definition iter (cf : cfg) (orc : oracle) (json : bytes -> jres) (st : cstate) (bs : bytes)
+  : list out * option (cstate * bytes) :=
+  match read_slice buffer_size bs with
+  | None => ([Close], None)
+  | Some (line, rest) =>
+    match parse_line line with
+    | None => ([Panic], None)
+    | Some params =>
+      match exec cf orc json st params rest with
+      | XPanic => ([Panic], None)
+      | XRes _ r => (outs_of_res r, next_of r)
+      end
+    end
+  end.
+
+(* a daemon serving two connections A (true) and B (false), each with its own bytes, its
+   own core answers and its own IDENTIFY bodies: a schedule says whose IOLoop goroutine
+   runs its next iteration; outputs are tagged with the connection they belong to *)
+Definition conn := option (cstate * bytes).
+Record peer := mkPeer { p_orc : oracle; p_json : bytes -> jres }.
+
+Definition conn_step (cf : cfg) (p : peer) (k : conn) : list out * conn :=
+  match k with
+  | None => ([], None)
+  | Some (st, bs) => iter cf (p_orc p) (p_json p) st bs
+  end.
+
+Fixpoint sys_run (cf : cfg) (pa pb : peer) (sched : list bool) (a b : conn) : list (bool * out) :=
+  match sched with
+  | [] => []
+  | true :: s =>
+      let '(o, a') := conn_step cf pa a in map (pair true) o ++ sys_run cf pa pb s a' b
+  | false :: s =>
+      let '(o, b') := conn_step cf pb b in map (pair false) o ++ sys_run cf pa pb s a b'
+  end.
+
+Definition outputs_of (who : bool) (l : list (bool * out)) : list out :=
+  map snd (filter (fun e => Bool.eqb (fst e) who) l).
 
 (* the configuration of a daemon started with default options except the three limits *)
 Definition default_cfg (max_msg max_body max_rdy : Z) : cfg :=
